@@ -171,23 +171,6 @@ Proof.
   - cbn [app denote_fields]. fold sz. rewrite Eg. apply IH. exact Hb2.
 Qed.
 
-(* and meets the time predicate exactly when the original does *)
-Lemma strip_time_ok be gmn : forall fds pay ref, List.length pay = psize fds ->
-  fields_time_ok be gmn (filter (listed gmn) fds) (strip_pay gmn fds pay) ref = fields_time_ok be gmn fds pay ref.
-Proof.
-  induction fds as [|f r IH]; intros pay ref Hlen; [reflexivity|].
-  rewrite psize_cons in Hlen. rewrite strip_pay_cons. cbn [filter].
-  set (sz := N.to_nat (sf_size f)) in *.
-  assert (Hb1 : List.length (firstn sz pay) = sz) by (rewrite firstn_length; lia).
-  assert (Hb2 : List.length (skipn sz pay) = psize r) by (rewrite skipn_length; lia).
-  destruct (listed gmn f) eqn:El; unfold listed in El;
-    destruct (get_field gmn (sf_num f)) as [p|] eqn:Eg; try discriminate.
-  - cbn [fields_time_ok]. fold sz. rewrite Eg.
-    rewrite !(firstn_app_len (firstn sz pay) _ sz Hb1), !(skipn_app_len (firstn sz pay) _ sz Hb1).
-    rewrite (IH _ _ Hb2). reflexivity.
-  - cbn [app fields_time_ok]. fold sz. rewrite Eg. apply IH. exact Hb2.
-Qed.
-
 (* ------------------------------------------------------------ the simulation relation *)
 
 Definition env_rel (env env' : list (N * sdef)) : Prop :=
@@ -228,21 +211,6 @@ Proof.
 Qed.
 
 (* ------------------------------------------------------------ one data record *)
-
-(* record_time_ok of a data record *)
-Definition data_ok (s : sstate) (l : N) (off : option N) (pay : list N) : bool :=
-  match lookup_def (ss_env s) l with
-  | None => true
-  | Some d =>
-      let step_ok := match off, ss_ref s with Some o, Some r0 => negb (roll r0 o =? 0) | _, _ => true end in
-      let ref1 := match off, ss_ref s with Some o, Some r0 => Some (roll r0 o) | _, r0 => r0 end in
-      step_ok && (if known_msg (sd_gmn d) then fields_time_ok (sd_be d) (sd_gmn d) (sd_fds d) pay ref1 else true)
-  end.
-
-Lemma record_time_ok_data s l pay dev : record_time_ok s (RData l pay dev) = data_ok s l None pay.
-Proof. reflexivity. Qed.
-Lemma record_time_ok_comp s l off pay dev : record_time_ok s (RComp l off pay dev) = data_ok s l (Some off) pay.
-Proof. reflexivity. Qed.
 
 (* a successful data record has the lengths its definition prescribes *)
 Lemma denote_data_lengths s l off pay dev d s1 :
@@ -296,18 +264,6 @@ Proof.
     (eexists; split; [reflexivity|]); cbn [ss_env ss_ref ss_msgs]; repeat split.
 Qed.
 
-Lemma data_ok_known_core a b l off pay d :
-  lookup_def (ss_env b) l = Some (strip_def d) -> ss_ref a = ss_ref b ->
-  lookup_def (ss_env a) l = Some d -> known_msg (sd_gmn d) = true ->
-  List.length pay = psize (sd_fds d) ->
-  data_ok a l off pay = true -> data_ok b l off (strip_pay (sd_gmn d) (sd_fds d) pay) = true.
-Proof.
-  intros Hlb Hr Hl Hk Ep. unfold data_ok. rewrite Hlb, Hl. rewrite <- Hr.
-  change (sd_gmn (strip_def d)) with (sd_gmn d).
-  change (sd_be (strip_def d)) with (sd_be d). change (sd_fds (strip_def d)) with (keep_fds (sd_gmn d) (sd_fds d)).
-  rewrite Hk, keep_fds_filter, (strip_time_ok _ _ _ _ _ Ep). auto.
-Qed.
-
 Lemma env_rel_some env env' l d : env_rel env env' -> lookup_def env l = Some d -> lookup_def env' l = Some (strip_def d).
 Proof. intros He Hl. rewrite (He l), Hl. reflexivity. Qed.
 
@@ -321,14 +277,6 @@ Proof.
     as (b1 & Eb & Henvb & Hr1 & Hm1).
   destruct (denote_data_lengths a l off pay dev d a1 Hl Hd) as [_ Henva].
   exists b1. split; [exact Eb|]. unfold st_rel. rewrite Henva, Henvb. auto.
-Qed.
-
-Lemma data_ok_known_sim a b l off pay d :
-  st_rel a b -> lookup_def (ss_env a) l = Some d -> known_msg (sd_gmn d) = true ->
-  List.length pay = psize (sd_fds d) ->
-  data_ok a l off pay = true -> data_ok b l off (strip_pay (sd_gmn d) (sd_fds d) pay) = true.
-Proof.
-  intros (He & Hr & Hm) Hl. apply data_ok_known_core; try assumption. exact (env_rel_some _ _ _ _ He Hl).
 Qed.
 
 (* unknown message, plain record: deleting it leaves the related state related *)
@@ -357,54 +305,40 @@ Proof.
   split; [exact He|]. split; [|exact Hm]. destruct (ss_ref a) as [r|]; reflexivity.
 Qed.
 
-Lemma data_ok_unknown_sim a b l off pay d :
-  st_rel a b -> lookup_def (ss_env a) l = Some d -> known_msg (sd_gmn d) = false ->
-  data_ok a l off pay = true -> data_ok b l off [] = true.
-Proof.
-  intros (He & Hr & Hm) Hl Hk. unfold data_ok. rewrite (He l), Hl. cbn [option_map]. rewrite <- Hr.
-  change (sd_gmn (strip_def d)) with (sd_gmn d). rewrite Hk. auto.
-Qed.
-
 (* ------------------------------------------------------------ the stream simulation *)
 
-(* the two runs stay related; the stripped run meets the time predicate when the original does *)
+(* the two runs stay related *)
 Theorem strip_sim : forall rs a b a',
   st_rel a b -> denote_from a rs = Some a' ->
-  exists b', denote_from b (strip (ss_env a) rs) = Some b' /\ st_rel a' b' /\
-    (no_time_quirk_from a rs = true -> no_time_quirk_from b (strip (ss_env a) rs) = true).
+  exists b', denote_from b (strip (ss_env a) rs) = Some b' /\ st_rel a' b'.
 Proof.
   induction rs as [|r rs IH]; intros a b a' Hrel Hden.
-  - cbn [denote_from strip no_time_quirk_from] in *. injection Hden as <-. exists b. auto.
+  - cbn [denote_from strip] in *. injection Hden as <-. exists b. auto.
   - cbn [denote_from] in Hden. destruct (denote_record a r) as [a1|] eqn:Ea; [|discriminate].
-    cbn [no_time_quirk_from]. rewrite Ea.
     destruct r as [l be gmn fds devflag devs | l pay dev | l off pay dev].
     + (* definition *)
       destruct (def_sim a b l be gmn fds devflag devs a1 Hrel Ea) as (b1 & Eb & Hrel1 & Henv).
       cbn [strip]. rewrite <- Henv.
-      destruct (IH a1 b1 a' Hrel1 Hden) as (b' & Hb' & Hrel' & Hq').
-      exists b'. cbn [denote_from no_time_quirk_from]. rewrite Eb.
-      split; [exact Hb'|]. split; [exact Hrel'|].
-      intros Hq. apply andb_prop in Hq. destruct Hq as [_ Hq]. cbn [record_time_ok andb]. exact (Hq' Hq).
+      destruct (IH a1 b1 a' Hrel1 Hden) as (b' & Hb' & Hrel').
+      exists b'. cbn [denote_from]. rewrite Eb.
+      split; [exact Hb'|exact Hrel'].
     + (* plain data record *)
-      cbn [denote_record] in Ea. rewrite record_time_ok_data. cbn [strip].
+      cbn [denote_record] in Ea. cbn [strip].
       destruct (lookup_def (ss_env a) l) as [d|] eqn:El.
       2:{ unfold denote_data in Ea. rewrite El in Ea. discriminate. }
       destruct (denote_data_lengths a l None pay dev d a1 El Ea) as [Ep Henv].
       destruct (known_msg (sd_gmn d)) eqn:Ek.
       * destruct (data_known_sim a b l None pay dev d a1 Hrel El Ek Ea) as (b1 & Eb & Hrel1).
         rewrite <- Henv.
-        destruct (IH a1 b1 a' Hrel1 Hden) as (b' & Hb' & Hrel' & Hq').
-        exists b'. cbn [denote_from no_time_quirk_from denote_record]. rewrite Eb.
-        split; [exact Hb'|]. split; [exact Hrel'|].
-        intros Hq. apply andb_prop in Hq. destruct Hq as [Hq0 Hq]. rewrite record_time_ok_data.
-        rewrite (data_ok_known_sim a b l None pay d Hrel El Ek Ep Hq0). cbn [andb]. exact (Hq' Hq).
+        destruct (IH a1 b1 a' Hrel1 Hden) as (b' & Hb' & Hrel').
+        exists b'. cbn [denote_from denote_record]. rewrite Eb.
+        split; [exact Hb'|exact Hrel'].
       * pose proof (data_unknown_sim a b l pay dev d a1 Hrel El Ek Ea) as Hrel1.
         rewrite <- Henv.
-        destruct (IH a1 b a' Hrel1 Hden) as (b' & Hb' & Hrel' & Hq').
-        exists b'. split; [exact Hb'|]. split; [exact Hrel'|].
-        intros Hq. apply andb_prop in Hq. destruct Hq as [_ Hq]. exact (Hq' Hq).
+        destruct (IH a1 b a' Hrel1 Hden) as (b' & Hb' & Hrel').
+        exists b'. split; [exact Hb'|exact Hrel'].
     + (* compressed-timestamp data record *)
-      cbn [denote_record] in Ea. rewrite record_time_ok_comp. cbn [strip].
+      cbn [denote_record] in Ea. cbn [strip].
       destruct (4 <=? l) eqn:E4; [discriminate|].
       destruct (lookup_def (ss_env a) l) as [d|] eqn:El.
       2:{ unfold denote_data in Ea. rewrite El in Ea. discriminate. }
@@ -412,25 +346,21 @@ Proof.
       destruct (known_msg (sd_gmn d)) eqn:Ek.
       * destruct (data_known_sim a b l (Some off) pay dev d a1 Hrel El Ek Ea) as (b1 & Eb & Hrel1).
         rewrite <- Henv.
-        destruct (IH a1 b1 a' Hrel1 Hden) as (b' & Hb' & Hrel' & Hq').
-        exists b'. cbn [denote_from no_time_quirk_from denote_record]. rewrite E4, Eb.
-        split; [exact Hb'|]. split; [exact Hrel'|].
-        intros Hq. apply andb_prop in Hq. destruct Hq as [Hq0 Hq]. rewrite record_time_ok_comp.
-        rewrite (data_ok_known_sim a b l (Some off) pay d Hrel El Ek Ep Hq0). cbn [andb]. exact (Hq' Hq).
+        destruct (IH a1 b1 a' Hrel1 Hden) as (b' & Hb' & Hrel').
+        exists b'. cbn [denote_from denote_record]. rewrite E4, Eb.
+        split; [exact Hb'|exact Hrel'].
       * destruct (comp_unknown_sim a b l off pay dev d a1 Hrel El Ek Ea) as (b1 & Eb & Hrel1).
         rewrite <- Henv.
-        destruct (IH a1 b1 a' Hrel1 Hden) as (b' & Hb' & Hrel' & Hq').
-        exists b'. cbn [denote_from no_time_quirk_from denote_record]. rewrite E4, Eb.
-        split; [exact Hb'|]. split; [exact Hrel'|].
-        intros Hq. apply andb_prop in Hq. destruct Hq as [Hq0 Hq]. rewrite record_time_ok_comp.
-        rewrite (data_ok_unknown_sim a b l (Some off) pay d Hrel El Ek Hq0). cbn [andb]. exact (Hq' Hq).
+        destruct (IH a1 b1 a' Hrel1 Hden) as (b' & Hb' & Hrel').
+        exists b'. cbn [denote_from denote_record]. rewrite E4, Eb.
+        split; [exact Hb'|exact Hrel'].
 Qed.
 
 Theorem strip_denote_from : forall rs a b a',
   st_rel a b -> denote_from a rs = Some a' ->
   exists b', denote_from b (strip (ss_env a) rs) = Some b' /\ st_rel a' b'.
 Proof.
-  intros rs a b a' Hrel Hden. destruct (strip_sim rs a b a' Hrel Hden) as (b' & Hb' & Hrel' & _).
+  intros rs a b a' Hrel Hden. destruct (strip_sim rs a b a' Hrel Hden) as (b' & Hb' & Hrel').
   exists b'. split; assumption.
 Qed.
 
@@ -441,14 +371,6 @@ Proof.
   intros rs ss Hden. unfold denote in *.
   destruct (strip_denote_from rs ss_init ss_init ss st_rel_init Hden) as (ss' & Hden' & _ & Hr & Hm).
   exists ss'. cbn [ss_init ss_env] in Hden'. split; [exact Hden'|]. split; symmetry; assumption.
-Qed.
-
-Theorem strip_no_time_quirk : forall rs ss, denote rs = Some ss ->
-  no_time_quirk rs = true -> no_time_quirk (strip [] rs) = true.
-Proof.
-  intros rs ss Hden Hq. unfold denote, no_time_quirk in *.
-  destruct (strip_sim rs ss_init ss_init ss st_rel_init Hden) as (ss' & _ & _ & Hq').
-  exact (Hq' Hq).
 Qed.
 
 (* ------------------------------------------------------------ the stripped stream is serialisable *)
@@ -608,11 +530,10 @@ Proof. intros rs. apply strip_clean_from. exact env_rel_nil. Qed.
 (* the domain of the stream theorem is closed under stripping *)
 Theorem strip_in_domain : forall h g rs, in_domain h g rs -> in_domain h g (strip [] rs).
 Proof.
-  intros h g rs (Hs & Hwf & Hq & ss & f2 & g1 & Hden & Hst).
+  intros h g rs (Hs & Hwf & ss & f2 & g1 & Hden & Hst).
   destruct (unknown_skipped rs ss Hden) as (ss' & Hden' & Hm & _).
   split; [exact (strip_starts_with_file_id rs Hs)|].
   split; [exact (strip_stream_wf rs [] Hwf)|].
-  split; [exact (strip_no_time_quirk rs ss Hden Hq)|].
   exists ss', f2, g1. split; [exact Hden'|]. rewrite Hm. exact Hst.
 Qed.
 
@@ -622,7 +543,7 @@ Theorem unknown_skipped_decoder : forall o h g rs, in_domain h g rs ->
   decoded_file o h g (strip [] rs) = decoded_file o h g rs.
 Proof.
   intros o h g rs D. pose proof (strip_in_domain h g rs D) as D'.
-  pose proof D as (_ & _ & _ & ss & _ & _ & Hden & _).
+  pose proof D as (_ & _ & ss & _ & _ & Hden & _).
   destruct (unknown_skipped rs ss Hden) as (ss' & Hden' & Hm & _).
   exact (same_messages_same_file o h g (strip [] rs) rs ss' ss D' D Hden' Hden Hm).
 Qed.
@@ -632,7 +553,7 @@ Corollary unknown_skipped_decoder_ok : forall o h g rs, in_domain h g rs ->
   decoded_file o h g (strip [] rs) <> None.
 Proof.
   intros o h g rs D. rewrite (unknown_skipped_decoder o h g rs D).
-  pose proof D as (_ & _ & _ & ss & _ & _ & Hden & _).
+  pose proof D as (_ & _ & ss & _ & _ & Hden & _).
   exact (proj2 (decoded_is_routed o h g rs ss D Hden)).
 Qed.
 
@@ -725,13 +646,11 @@ Qed.
 
 Theorem strip_all_sim : forall rs a b a',
   st_relk a b -> no_unknown_comp (ss_env a) rs = true -> denote_from a rs = Some a' ->
-  exists b', denote_from b (strip_all (ss_env a) rs) = Some b' /\ st_relk a' b' /\
-    (no_time_quirk_from a rs = true -> no_time_quirk_from b (strip_all (ss_env a) rs) = true).
+  exists b', denote_from b (strip_all (ss_env a) rs) = Some b' /\ st_relk a' b'.
 Proof.
   induction rs as [|r rs IH]; intros a b a' Hrel Hnc Hden.
-  - cbn [denote_from strip_all no_time_quirk_from] in *. injection Hden as <-. exists b. auto.
+  - cbn [denote_from strip_all] in *. injection Hden as <-. exists b. auto.
   - cbn [denote_from] in Hden. destruct (denote_record a r) as [a1|] eqn:Ea; [|discriminate].
-    cbn [no_time_quirk_from]. rewrite Ea.
     destruct r as [l be gmn fds devflag devs | l pay dev | l off pay dev]; cbn [no_unknown_comp] in Hnc.
     + (* definition *)
       destruct (def_step a l be gmn fds devflag devs a1 Ea) as [Ea1 Eb].
@@ -743,18 +662,16 @@ Proof.
                                       (ss_ref b) (ss_msgs b) (ss_unkm b) (ss_unkf b))).
         { rewrite Ea1. unfold st_relk. cbn [ss_env ss_ref ss_msgs]. split; [|auto].
           apply env_relk_cons_known. exact He. }
-        destruct (IH a1 _ a' Hrel1 Hnc Hden) as (b' & Hb' & Hrel' & Hq').
-        exists b'. cbn [denote_from no_time_quirk_from]. rewrite (Eb b).
-        split; [exact Hb'|]. split; [exact Hrel'|].
-        intros Hq. apply andb_prop in Hq. destruct Hq as [_ Hq]. cbn [record_time_ok andb]. exact (Hq' Hq).
+        destruct (IH a1 _ a' Hrel1 Hnc Hden) as (b' & Hb' & Hrel').
+        exists b'. cbn [denote_from]. rewrite (Eb b).
+        split; [exact Hb'|exact Hrel'].
       * assert (Hrel1 : st_relk a1 b).
         { rewrite Ea1. unfold st_relk. cbn [ss_env ss_ref ss_msgs]. split; [|auto].
           apply env_relk_cons_unknown; assumption. }
-        destruct (IH a1 b a' Hrel1 Hnc Hden) as (b' & Hb' & Hrel' & Hq').
-        exists b'. split; [exact Hb'|]. split; [exact Hrel'|].
-        intros Hq. apply andb_prop in Hq. destruct Hq as [_ Hq]. exact (Hq' Hq).
+        destruct (IH a1 b a' Hrel1 Hnc Hden) as (b' & Hb' & Hrel').
+        exists b'. split; [exact Hb'|exact Hrel'].
     + (* plain data record *)
-      cbn [denote_record] in Ea. rewrite record_time_ok_data. cbn [strip_all].
+      cbn [denote_record] in Ea. cbn [strip_all].
       destruct (lookup_def (ss_env a) l) as [d|] eqn:El.
       2:{ unfold denote_data in Ea. rewrite El in Ea. discriminate. }
       destruct (denote_data_lengths a l None pay dev d a1 El Ea) as [Ep Henv].
@@ -764,18 +681,15 @@ Proof.
       * destruct (data_known_core a b l None pay dev d a1 El (He l d El Ek) Hr Hm Ek Ea)
           as (b1 & Eb & Henvb & Hr1 & Hm1).
         assert (Hrel1 : st_relk a1 b1) by (unfold st_relk; rewrite Henv, Henvb; auto).
-        destruct (IH a1 b1 a' Hrel1 Hnc Hden) as (b' & Hb' & Hrel' & Hq').
-        exists b'. cbn [denote_from no_time_quirk_from denote_record]. rewrite Eb.
-        split; [exact Hb'|]. split; [exact Hrel'|].
-        intros Hq. apply andb_prop in Hq. destruct Hq as [Hq0 Hq]. rewrite record_time_ok_data.
-        rewrite (data_ok_known_core a b l None pay d (He l d El Ek) Hr El Ek Ep Hq0). cbn [andb]. exact (Hq' Hq).
+        destruct (IH a1 b1 a' Hrel1 Hnc Hden) as (b' & Hb' & Hrel').
+        exists b'. cbn [denote_from denote_record]. rewrite Eb.
+        split; [exact Hb'|exact Hrel'].
       * assert (Hrel1 : st_relk a1 b).
         { rewrite (unknown_data_skipped a l pay dev d a1 El Ek Ea). unfold st_relk. cbn [ss_env ss_ref ss_msgs]. auto. }
-        destruct (IH a1 b a' Hrel1 Hnc Hden) as (b' & Hb' & Hrel' & Hq').
-        exists b'. split; [exact Hb'|]. split; [exact Hrel'|].
-        intros Hq. apply andb_prop in Hq. destruct Hq as [_ Hq]. exact (Hq' Hq).
+        destruct (IH a1 b a' Hrel1 Hnc Hden) as (b' & Hb' & Hrel').
+        exists b'. split; [exact Hb'|exact Hrel'].
     + (* compressed-timestamp data record: of a known message, as assumed *)
-      cbn [denote_record] in Ea. rewrite record_time_ok_comp. cbn [strip_all].
+      cbn [denote_record] in Ea. cbn [strip_all].
       destruct (4 <=? l) eqn:E4; [discriminate|].
       destruct (lookup_def (ss_env a) l) as [d|] eqn:El.
       2:{ unfold denote_data in Ea. rewrite El in Ea. discriminate. }
@@ -786,18 +700,16 @@ Proof.
       destruct (data_known_core a b l (Some off) pay dev d a1 El (He l d El Ek) Hr Hm Ek Ea)
         as (b1 & Eb & Henvb & Hr1 & Hm1).
       assert (Hrel1 : st_relk a1 b1) by (unfold st_relk; rewrite Henv, Henvb; auto).
-      destruct (IH a1 b1 a' Hrel1 Hnc Hden) as (b' & Hb' & Hrel' & Hq').
-      exists b'. cbn [denote_from no_time_quirk_from denote_record]. rewrite E4, Eb.
-      split; [exact Hb'|]. split; [exact Hrel'|].
-      intros Hq. apply andb_prop in Hq. destruct Hq as [Hq0 Hq]. rewrite record_time_ok_comp.
-      rewrite (data_ok_known_core a b l (Some off) pay d (He l d El Ek) Hr El Ek Ep Hq0). cbn [andb]. exact (Hq' Hq).
+      destruct (IH a1 b1 a' Hrel1 Hnc Hden) as (b' & Hb' & Hrel').
+      exists b'. cbn [denote_from denote_record]. rewrite E4, Eb.
+      split; [exact Hb'|exact Hrel'].
 Qed.
 
 Theorem unknown_skipped_all : forall rs ss, no_unknown_comp [] rs = true -> denote rs = Some ss ->
   exists ss', denote (strip_all [] rs) = Some ss' /\ ss_msgs ss' = ss_msgs ss /\ ss_ref ss' = ss_ref ss.
 Proof.
   intros rs ss Hnc Hden. unfold denote in *.
-  destruct (strip_all_sim rs ss_init ss_init ss st_relk_init Hnc Hden) as (ss' & Hden' & (_ & Hr & Hm) & _).
+  destruct (strip_all_sim rs ss_init ss_init ss st_relk_init Hnc Hden) as (ss' & Hden' & (_ & Hr & Hm)).
   exists ss'. cbn [ss_init ss_env] in Hden'. split; [exact Hden'|]. split; symmetry; assumption.
 Qed.
 
@@ -844,12 +756,11 @@ Qed.
 Theorem strip_all_in_domain : forall h g rs, no_unknown_comp [] rs = true ->
   in_domain h g rs -> in_domain h g (strip_all [] rs).
 Proof.
-  intros h g rs Hnc (Hs & Hwf & Hq & ss & f2 & g1 & Hden & Hst).
+  intros h g rs Hnc (Hs & Hwf & ss & f2 & g1 & Hden & Hst).
   pose proof Hden as Hden0. unfold denote in Hden0.
-  destruct (strip_all_sim rs ss_init ss_init ss st_relk_init Hnc Hden0) as (ss' & Hden' & (_ & _ & Hm) & Hq').
+  destruct (strip_all_sim rs ss_init ss_init ss st_relk_init Hnc Hden0) as (ss' & Hden' & (_ & _ & Hm)).
   split; [exact (strip_all_starts_with_file_id rs Hs)|].
   split; [exact (strip_all_stream_wf rs [] Hwf)|].
-  split; [exact (Hq' Hq)|].
   exists ss', f2, g1. split; [exact Hden'|]. rewrite <- Hm. exact Hst.
 Qed.
 
@@ -857,7 +768,7 @@ Theorem unknown_skipped_all_decoder : forall o h g rs, no_unknown_comp [] rs = t
   decoded_file o h g (strip_all [] rs) = decoded_file o h g rs.
 Proof.
   intros o h g rs Hnc D. pose proof (strip_all_in_domain h g rs Hnc D) as D'.
-  pose proof D as (_ & _ & _ & ss & _ & _ & Hden & _).
+  pose proof D as (_ & _ & ss & _ & _ & Hden & _).
   destruct (unknown_skipped_all rs ss Hnc Hden) as (ss' & Hden' & Hm & _).
   exact (same_messages_same_file o h g (strip_all [] rs) rs ss' ss D' D Hden' Hden Hm).
 Qed.
